@@ -118,6 +118,7 @@ def catalogue():
     C["constructor"] = (lambda E: [FlodymArray(dims=E.x.dims), FlodymArray(dims=E.x.dims, values=E.x.values.copy()), StockArray(dims=E.tx.dims, values=E.tx.values.copy())], False)
     # frames
     C["to_df"] = (lambda E: [E.x.to_df(), E.x.to_df(index=False), E.x.to_df(dim_to_columns="Alpha"), E.y.to_df(sparse=False)] and [], False)
+    C["to_df_sparse_with_nan"] = (lambda E: _to_df_sparse_with_nan(E), False)
     C["from_df"] = (lambda E: [FlodymArray.from_df(dims=E.x.dims, df=E.x.to_df()), FlodymArray.from_df(dims=E.ds("ba"), df=E.x.to_df(dim_to_columns="b", index=False))], False)
     C["from_df_caller_frame"] = (lambda E: _from_df_frame(E), False)
     C["plain_after_inplace_unary"] = (lambda E: _plain_after_inplace(E), True)
@@ -142,6 +143,21 @@ def _read_from_view_backed(E):
     E.arrays.update(cast_result=big, transposed=tv, strided=sv, reshaped=re)
     return [big["c1"], big[{"a": "a1"}], big["c2", "b1"], tv["b1"], tv[{"a": "a2"}], tv[...], sv["c2"], sv[{"b": "b2"}], re["a1"], re[{"b": "b2"}]] \
         + list(tv.split("a").values()) + list(big.split("c").values())
+
+
+def _to_df_sparse_with_nan(E):
+    """exports of an array holding a NaN entry (an empty cell of the source data) leave that array as it is"""
+    from flodym import FlodymArray
+
+    w = E.w
+    V = E.vals["x"].copy()
+    V[0, 1] = w.with_nan(V[0, 1], w.boolean("x01_is_nan", default=True))
+    xn = FlodymArray(dims=E.ds("ab"), values=V.copy(), name="xn")
+    for kw in (dict(sparse=True), dict(sparse=True, index=False), dict(), dict(dim_to_columns="Beta")):
+        xn.to_df(**kw)
+        for idx in np.ndindex(*V.shape):
+            w.ob(f"export{sorted(kw.items())}:source_unchanged{list(idx)}", w.same(xn.values[idx], V[idx]))
+    return []
 
 
 def _from_df_frame(E):
@@ -257,6 +273,29 @@ def system_ops():
                 w.ob_eq(f"to_stock_type:computes_like_fresh:{k}{list(idx)}", getattr(new, k).values[idx], getattr(fresh, k).values[idx])
         return [new.stock, new.outflow]
 
+    def sankey_plot(E):
+        """plotting a system (flows coloured by one of their dimensions, negative entries allowed) leaves its flows alone"""
+        from flodym import MFASystem, Flow, Process
+        from flodym.export.sankey import PlotlySankeyPlotter
+
+        w = E.w
+        procs = {"sysenv": Process(name="sysenv", id=0), "use": Process(name="use", id=1), "waste": Process(name="waste", id=2)}
+        V1, V2 = w.arr("sk1", (2,)), w.arr("sk2", (2, 2))
+        f1 = Flow(dims=E.ds("a"), values=V1.copy(), from_process=procs["sysenv"], to_process=procs["use"], name="sysenv => use")
+        f2 = Flow(dims=E.ds("ab"), values=V2.copy(), from_process=procs["use"], to_process=procs["waste"], name="use => waste")
+        mfa = MFASystem(dims=E.full, parameters={}, processes=procs, flows={f1.name: f1, f2.name: f2}, stocks={})
+        for colors, sl in (({"default": "grey", f1.name: ("a", ["red", "blue"]), f2.name: ("Beta", ["red", "blue"])}, {}),
+                           ({"default": "grey", f1.name: ("Alpha", ["red", "blue"])}, {"b": "b1"}), ({"default": "grey"}, {"a": "a2"})):
+            try:
+                PlotlySankeyPlotter(mfa=mfa, slice_dict=sl, flow_color_dict=colors, exclude_processes=[]).plot()
+            except Exception as e:
+                w.ob("sankey_plot_does_not_raise", False, info=f"{type(e).__name__}: {str(e)[:150]}")
+            for f_, V in ((f1, V1), (f2, V2)):
+                for idx in np.ndindex(*V.shape):
+                    w.ob(f"sankey:{f_.name}:unchanged{list(idx)}:colors={sorted(colors)}", w.same(mfa.flows[f_.name].values[idx], V[idx]))
+        return []
+
+    S["sankey_plot"] = (sankey_plot, False)
     S["stock_from_arrays"] = (stock_from_arrays, False)
     S["to_stock_type"] = (to_stock_type, False)
     S["system_and_export"] = (system_and_export, False)
